@@ -25,7 +25,7 @@ TEXTS = {
         "technique": 'Lean 4 proof (Hoare-style frame + decision theorems over the fault-injected monad) + co-simulation with faults at every call',
     },
     'C08': {
-        "text": "Kernel-checked (decision logic regenerated from source): for a stopped run the step gate, the callback gate (since fix F1) and the poller gate never reach the user function - in every environment nothing is written and no outcome consumed; a paused run's timer is kept; Resume writes Running at the same status/object with version+1 and that write is routed to the status topic. Engine model = lean/WorkflowModel/Model/Engine.lean (executable, adapter-call granularity, fault plans, user-function outcomes as parameters), tied to the code by co-simulation under the gated deterministic simulator: every observation line of every explored history must be identical; guards/tables are regenerated from source (T1), call orders are tripwires (T2). ",
+        "text": "Kernel-checked (decision logic regenerated from source): a refused controller request leaves the controller's own record untouched, so Pause/Resume/Cancel through one handle on a cancelled or deleted run are all refused, in any order (pure-ctl drives such sequences on the real controller); for a stopped run the step gate, the callback gate (since fix F1) and the poller gate never reach the user function - in every environment nothing is written and no outcome consumed; a paused run's timer is kept; Resume writes Running at the same status/object with version+1 and that write is routed to the status topic. Engine model = lean/WorkflowModel/Model/Engine.lean (executable, adapter-call granularity, fault plans, user-function outcomes as parameters), tied to the code by co-simulation under the gated deterministic simulator: every observation line of every explored history must be identical; guards/tables are regenerated from source (T1), call orders are tripwires (T2). ",
         "note": TB,
         "technique": 'Lean 4 proof (gate functions over regenerated guards) + co-simulation with pause/cancel/delete at every point',
     },
@@ -58,13 +58,13 @@ TEXTS = {
                 "a failing operation never ends the process (back-off, or the role again when the lease is gone) and from back-off it only asks for the role again; no parking state is a dead end (after a finite wait a step is enabled, or the process idles at an empty stream). "
                 "Role scheduler contract RefRoles: in EVERY reachable state no role has two live holders (induction over request/grant/cancel sequences); a grant while held is refused; a cancelled holder frees the role. "
                 "Ties and runtime clauses: co-simulation with a lease monitor on every adapter call, adapter-call-after-Stop, process-not-shutdown-after-Stop, receiver/sender closed (simulator); mem-roles monitors the real memrolescheduler under concurrent Await calls against RefRoles; "
-                "live-supervise runs the real workflow (sharded step, callback, timeout, connector, hook; injected adapter failures; two instances) on real goroutines and checks no process ends before Stop, Stop waits, nothing is called afterwards, everything opened is closed, Run is idempotent - "
+                "sim-schedule loses the schedule process's role while it waits on its timer (it must go back to asking for the role); live-supervise runs the real workflow (sharded step, callback, timeout, connector, hook; injected adapter failures; two instances) on real goroutines and checks no process ends before Stop, Stop waits, nothing is called afterwards, everything opened is closed, Run is idempotent - "
                 "and again in a binary built with the Go race detector; pure-launch checks that Run registered every process when it returns.",
         "note": TB + "PARTIAL for the runtime clauses: goroutine interleavings, context propagation and data races are not expressible in the Lean model; they are exercised (race detector, real goroutines), not proved.",
         "technique": "Lean 4 proof (frame and supervision theorems over the engine model; mutual exclusion invariant of the role-scheduler contract) + co-simulation with lease/stop monitors + concurrent monitoring of memrolescheduler + race-detector runs",
     },
     'C12': {
-        "text": "Kernel-checked: the poller reaches a timeout function only for the timer's OWN run (lookup by run ID, since fix F10), still at the status, neither finished nor stopped; moved-on runs get exactly that timer cancelled; timers created only for non-zero times; "
+        "text": "Kernel-checked: a timer is marked completed only after its transition was persisted (if the updater fails the timers are untouched and the failure is returned); the poller reaches a timeout function only for the timer's OWN run (lookup by run ID, since fix F10), still at the status, neither finished nor stopped; moved-on runs get exactly that timer cancelled; timers created only for non-zero times; "
                 "a successful timeout completes its timer, a failing one leaves it for later polls. Store clauses proved on the contract RefTimeouts: due iff workflow/status match, not completed, not cancelled, expired before the instant (either answer AT the instant); "
                 "Complete/Cancel of one ID - or an unknown ID - leaves every other timer untouched; completed/cancelled never due again; IDs unique in every reachable store. Ties: regenerated due-test of memtimeoutstore (T2), differential suite "
                 "mem-timeoutstore (all answers vs the compiled reference incl. unknown/zero IDs, empty store, instants before/at/after expiry; corpus of repaired defect F9 first), engine co-simulation with clock positions around expiry.",
@@ -90,7 +90,7 @@ TEXTS = {
         "technique": "Lean 4 proof of the reference stream's laws + exhaustive short-sequence and random differential co-simulation of memstreamer/connector against the compiled reference",
     },
     'C13': {
-        "text": 'Kernel-checked over regenerated tests: n=0 never pauses nor counts; below threshold counts exactly that (error,process,run) key, other keys untouched; at the n-th occurrence one Paused write (version+1) and the count restarts at 0; retry consumer writes nothing unless still Paused and the full interval has elapsed since updatedAt; Cancelled cannot be resumed. Engine model = lean/WorkflowModel/Model/Engine.lean (executable, adapter-call granularity, fault plans, user-function outcomes as parameters), tied to the code by co-simulation under the gated deterministic simulator: every observation line of every explored history must be identical; guards/tables are regenerated from source (T1), call orders are tripwires (T2). ',
+        "text": 'Kernel-checked over regenerated tests: (search suites: random pause histories with the simulated clock ahead of AND behind the wall clock; sim-pause-faults: an always-failing step / timeout function under n=1..3 with one fault at every adapter call of every operation - the run must be Paused after n failing invocations, n+1 when the fault cut the pausing write) n=0 never pauses nor counts; below threshold counts exactly that (error,process,run) key, other keys untouched; at the n-th occurrence one Paused write (version+1) and the count restarts at 0; retry consumer writes nothing unless still Paused and the full interval has elapsed since updatedAt; Cancelled cannot be resumed. Engine model = lean/WorkflowModel/Model/Engine.lean (executable, adapter-call granularity, fault plans, user-function outcomes as parameters), tied to the code by co-simulation under the gated deterministic simulator: every observation line of every explored history must be identical; guards/tables are regenerated from source (T1), call orders are tripwires (T2). ',
         "note": TB,
         "technique": 'Lean 4 proof (decision theorems) + co-simulation with n in 1..3, several runs/errors, stamping store',
     },
@@ -100,7 +100,7 @@ TEXTS = {
         "technique": 'Lean 4 proof (filter/routing/ack theorems) + co-simulation with failing hooks and faults',
     },
     'C15': {
-        "text": 'Kernel-checked: DeleteData accepted iff Completed/Cancelled/DataDeleted (regenerated table); the delete consumer writes nothing or exactly the scrubbed record (DataDeleted, same status/ids/createdAt, version+1, custom-delete result or marker) for every fault plan and delete outcome; a failing delete function writes nothing and fails; scrubbing is idempotent under redelivery. Engine model = lean/WorkflowModel/Model/Engine.lean (executable, adapter-call granularity, fault plans, user-function outcomes as parameters), tied to the code by co-simulation under the gated deterministic simulator: every observation line of every explored history must be identical; guards/tables are regenerated from source (T1), call orders are tripwires (T2). ',
+        "text": 'Kernel-checked: a redelivered request on an already DataDeleted run succeeds and is acknowledged (default delete, nothing injected); DeleteData accepted iff Completed/Cancelled/DataDeleted (regenerated table); the delete consumer writes nothing or exactly the scrubbed record (DataDeleted, same status/ids/createdAt, version+1, custom-delete result or marker) for every fault plan and delete outcome; a failing delete function writes nothing and fails; scrubbing is idempotent under redelivery. Engine model = lean/WorkflowModel/Model/Engine.lean (executable, adapter-call granularity, fault plans, user-function outcomes as parameters), tied to the code by co-simulation under the gated deterministic simulator: every observation line of every explored history must be identical; guards/tables are regenerated from source (T1), call orders are tripwires (T2). ',
         "note": TB,
         "technique": 'Lean 4 proof (handler-level, all environments) + co-simulation with delete requests at every point',
     },
@@ -138,7 +138,7 @@ TEXTS = {
                 "for n>=2 and one un-sharded process otherwise (the connector statement failed to prove before the repair of defect F11); no process is launched twice for any configuration with one entry per status/connector/hook; "
                 "(3) the role NAMES of all launched processes are pairwise distinct as STRINGS for every workflow name (spaces, upper case, dashes), all statuses incl. negative ones, all counts - proved by parsing role names back "
                 "(makeRole is a byte-wise map after the join; '-' comes only from '-'; decimal renderings contain no letters), given connector names distinct after normalisation and statuses shorter than 13 characters. "
-                "Ties: real shardFilter/makeRole vs model over all residues x both signs x n<=8, int64 limits, random and FNV-hashed connector IDs; pure-launch starts the real Run on a recording role scheduler for generated configurations "
+                "Ties: real shardFilter/makeRole vs model over all residues x both signs x n<=8, int64 limits, random and FNV-hashed connector IDs; pure-connshards runs n shard processes, each with its OWN real connector streamer and start offset (restarts), through the real shard filter: one shard per connector event, IDs independent of what a streamer hashed before; pure-launch starts the real Run on a recording role scheduler for generated configurations "
                 "(own/default counts in {-1,0,1,2,3,5,8}, timeouts, connectors, hooks, retry on/off, names with spaces/dashes/upper case) and compares the awaited roles with the model and with the property's own list, calls Run twice, and rebuilds with other status display strings.",
         "note": TB,
         "technique": "Lean 4 proof (Int.tmod arithmetic; launch-list theorems over regenerated loop guards) + exhaustive/differential check of shardFilter, makeRole and the processes Run launches",
